@@ -18,6 +18,11 @@ from .sym import SymBool, SymInt, SymReal, SymStr, SymNum, to_z3, mkbool, mkint,
 class SymSpec(object):
     mode = "sym"
 
+    @property
+    def da(self):
+        from . import loader
+        return loader.load()
+
     def __init__(self, ctx, lengths=None):
         self.ctx = ctx
         self.lengths = dict(lengths or {})     # bounded mode: name -> concrete length
@@ -84,6 +89,19 @@ class SymSpec(object):
         arr = symnp.ndarray.from_fn(lambda *i: f(*[zint(k) for k in i]), tuple(shape), kind, elem, name=name)
         self.inputs.append((name, "arraynd", (f, tuple(shape), kind, elem)))
         return arr
+
+    def fresh_int(self, name):
+        return SymInt(z3.Int(name))
+
+    def fresh_array1d(self, name, kind, n):
+        elem = {"i": "real", "I": "int", "f": "real", "b": "bool", "O": "str"}[kind]
+        kind = "i" if kind == "I" else kind
+        srt = {"int": z3.IntSort(), "real": z3.RealSort(), "bool": z3.BoolSort(), "str": z3.IntSort()}[elem]
+        f = z3.Function(name, z3.IntSort(), srt)
+        return symnp.ndarray.from_fn(lambda i: f(zint(i)), (n,), kind, elem, name=name)
+
+    def tag(self, arr, key, value):
+        arr.buf.tags[key] = value
 
     def ghost_int(self, name, native=None):
         t = z3.Int(name)
